@@ -22,12 +22,12 @@ def akimaSlopes (periodic : Bool) (xs ys : List Rat) : List Rat :=
   let m := fun (k : Nat) => (y (k + 1) - y k) / (x (k + 1) - x k)
   let interior := fun (i : Nat) => akimaInteriorSlope xs ys i
   if periodic then
-    let mw := (y 0 - y (n - 1)) / (x 0 - x (n - 1))
-    let t0 := getSlope (m (n - 2)) mw (m 0) (m 1)
-    let t1 := getSlope mw (m 0) (m 1) (m 2)
-    let tn2 := getSlope (m (n - 4)) (m (n - 3)) (m (n - 2)) mw
-    let tn1 := getSlope (m (n - 3)) (m (n - 2)) mw (m 0)
-    (List.range n).map fun i => if i == 0 then t0 else if i == 1 then t1 else if i + 2 == n then tn2 else if i + 1 == n then tn1 else interior i
+    -- the last point is the periodic image of the first: in front of the first point lie the last intervals, behind the last point
+    -- the first ones; both ends carry the same slope
+    let t0 := getSlope (m (n - 3)) (m (n - 2)) (m 0) (m 1)
+    let t1 := getSlope (m (n - 2)) (m 0) (m 1) (m 2)
+    let tn2 := getSlope (m (n - 4)) (m (n - 3)) (m (n - 2)) (m 0)
+    (List.range n).map fun i => if i == 0 then t0 else if i == 1 then t1 else if i + 2 == n then tn2 else if i + 1 == n then t0 else interior i
   else
     -- left end
     let temp := ((x 1 - x 0) / (x 2 - x 0)) * ((x 1 - x 0) / (x 2 - x 0))
